@@ -24,9 +24,21 @@ import (
 	"slogverif/seq"
 )
 
-var statsFile *os.File
+var statsFile, violationLog *os.File
 
 func setup() error {
+	lowerLimits()
+	if p := os.Getenv("C16_STATS"); p != "" {
+		statsFile, _ = os.OpenFile(p, os.O_APPEND|os.O_CREATE|os.O_WRONLY, 0o644)
+	}
+	if p := os.Getenv("C16_VIOLATIONS"); p != "" {
+		violationLog, _ = os.OpenFile(p, os.O_APPEND|os.O_CREATE|os.O_WRONLY, 0o644)
+	}
+	return loadRecordMenu()
+}
+
+// lowerLimits: silence + the in-process size parameters (worker and loader helper process alike)
+func lowerLimits() {
 	logger.SetOutput(io.Discard)
 	logger.SetLogLevel(logger.ErrorLevel)
 	// smaller per-object buffers (serializer: 2x record limit, addFields: message limit): the record menu stays far
@@ -36,10 +48,6 @@ func setup() error {
 	defs.ListenerLineBufferSize = defs.InputLogMaxRecordBytes * 4
 	// the queue of a hybrid bufferer is a Go channel of this capacity (24 MB zeroed per bufferer at the default)
 	defs.BufferMaxNumChunksInQueue = 2000
-	if p := os.Getenv("C16_STATS"); p != "" {
-		statsFile, _ = os.OpenFile(p, os.O_APPEND|os.O_CREATE|os.O_WRONLY, 0o644)
-	}
-	return loadRecordMenu()
 }
 
 // pairKind: the kinds used for two-site mutants
@@ -53,6 +61,18 @@ func pairKind(kind string) bool {
 	return false
 }
 
+// caseLogged is ctx.Case plus the debug list of every violating case (C16_VIOLATIONS=file: "key<TAB>case id" per line;
+// the evidence keeps only the first case of a key).
+func caseLogged(ctx *seq.Ctx, id string, nontrivial bool, input string, run func() (string, string)) {
+	ctx.Case(id, nontrivial, input, func() (string, string) {
+		key, msg := run()
+		if key != "" && violationLog != nil {
+			fmt.Fprintf(violationLog, "%s\t%s\n", key, id)
+		}
+		return key, msg
+	})
+}
+
 func bump(ctx *seq.Ctx, name string) {
 	if ctx.Groups != nil {
 		ctx.Groups[name]++
@@ -61,16 +81,21 @@ func bump(ctx *seq.Ctx, name string) {
 
 func enumerate(ctx *seq.Ctx) {
 	if err := setup(); err != nil {
-		ctx.Case("setup", false, "", func() (string, string) { return "harness:setup", err.Error() })
+		caseLogged(ctx, "setup", false, "", func() (string, string) { return "harness:setup", err.Error() })
 		return
 	}
 	defer removeScratch()
+	defer stopHelper()
 	bases, err := allBases()
 	if err != nil {
-		ctx.Case("setup", false, "", func() (string, string) { return "harness:setup", err.Error() })
+		caseLogged(ctx, "setup", false, "", func() (string, string) { return "harness:setup", err.Error() })
 		return
 	}
 	opt := evalOptions{orchestrate: true, listen: true, twoTags: true}
+	// bases, the valid side and the new groups: also the limit-size records of the big menu, and phase C (real forwarders
+	// as the pipeline assembles them + a restart on the queue directories they leave)
+	full := opt
+	full.bigMenu, full.real = true, true
 	// quick tier: a mutant inside a transform list is instantiated inline only (the pipelines of phase B call exactly
 	// the same constructors); everything else, and everything in the thorough tier, also goes through phase B
 	optFor := func(path string) evalOptions {
@@ -92,7 +117,7 @@ func enumerate(ctx *seq.Ctx) {
 		{"doc/binary", "\x00\x01\x02\xff"}, {"doc/alias-loop", "a: &a [*a]\n"}, {"doc/unknown-alias", "schema: *nowhere\n"},
 	} {
 		d := d
-		ctx.Case(d.id, true, d.text, func() (string, string) {
+		caseLogged(ctx, d.id, true, d.text, func() (string, string) {
 			outcome, key, msg := evaluate(d.text, "", opt)
 			bump(ctx, "outcome/document/"+outcome)
 			if outcome == outAccepted {
@@ -101,6 +126,11 @@ func enumerate(ctx *seq.Ctx) {
 			return key, msg
 		})
 	}
+
+	// ---- pairs of configurations: reload (old -> new through run.Reloader) and restart (new started on what old left).
+	// Early in the enumeration: a panic on a pipeline goroutine after a reload ends the worker process, and seq cannot
+	// recover what a dead worker had evaluated before.
+	enumeratePairs(ctx)
 
 	// ---- invalid side
 	seenText := map[string]bool{}
@@ -111,11 +141,11 @@ func enumerate(ctx *seq.Ctx) {
 		b := &bases[bi]
 		root, perr := parseYAML(b.text)
 		ctx.Group("base/" + b.family)
-		ctx.Case("base/"+b.name, true, b.text, func() (string, string) {
+		caseLogged(ctx, "base/"+b.name, true, b.text, func() (string, string) {
 			if perr != nil {
 				return "harness:base-yaml", perr.Error()
 			}
-			outcome, key, msg := evaluate(b.text, "", opt)
+			outcome, key, msg := evaluate(b.text, "", full)
 			bump(ctx, "outcome/base/"+outcome)
 			if outcome == outRejected {
 				_, _, _, err := parseOnly(b.text)
@@ -126,12 +156,12 @@ func enumerate(ctx *seq.Ctx) {
 		if perr != nil {
 			continue
 		}
-		ctx.Case("base/"+b.name+"/roundtrip", true, b.text, func() (string, string) {
+		caseLogged(ctx, "base/"+b.name+"/roundtrip", true, b.text, func() (string, string) {
 			text, err := renderYAML(root)
 			if err != nil {
 				return "harness:render", err.Error()
 			}
-			outcome, key, msg := evaluate(text, "", opt)
+			outcome, key, msg := evaluate(text, "", full)
 			bump(ctx, "outcome/base/"+outcome)
 			if outcome == outRejected {
 				_, _, _, err := parseOnly(text)
@@ -146,7 +176,7 @@ func enumerate(ctx *seq.Ctx) {
 			}
 			ctx.Group(group)
 			text, rerr := renderYAML(m.doc)
-			ctx.Case(id, true, text, func() (string, string) {
+			caseLogged(ctx, id, true, text, func() (string, string) {
 				if rerr != nil {
 					return "harness:render", rerr.Error()
 				}
@@ -201,11 +231,14 @@ func enumerate(ctx *seq.Ctx) {
 			grp = grp[:i]
 		}
 		ctx.Group("valid/" + grp)
-		ctx.Case("valid/"+v.id, true, v.text, func() (string, string) {
+		caseLogged(ctx, "valid/"+v.id, true, v.text, func() (string, string) {
 			vopt := opt
-			if !ctx.Thorough() && grp != "leaf" && grp != "orch-out" {
+			vopt.bigMenu = true
+			structural := grp == "leaf" || grp == "orch-out" || grp == "two-out" || grp == "amplify"
+			if !ctx.Thorough() && !structural {
 				vopt.orchestrate, vopt.listen = false, false
 			}
+			vopt.real = grp == "orch-out" || grp == "two-out" || (ctx.Thorough() && structural)
 			outcome, key, msg := evaluate(v.text, "", vopt)
 			bump(ctx, "outcome/valid/"+outcome)
 			if outcome == outRejected {
@@ -242,8 +275,10 @@ func enumerate(ctx *seq.Ctx) {
 			outYAML += "messageMode: PackedForward\nupstream:\n  address: localhost:24224\n  tls: false\n  secret: guess\n  maxDuration: 30m\n"
 			text := skeleton(parts{output: outYAML})
 			id := fmt.Sprintf("roles/log=%d/host=%d", ra, rb)
-			ctx.Case(id, true, text, func() (string, string) {
-				outcome, key, msg := evaluate(text, "", opt)
+			caseLogged(ctx, id, true, text, func() (string, string) {
+				ropt := opt
+				ropt.real = ctx.Thorough()
+				outcome, key, msg := evaluate(text, "", ropt)
 				bump(ctx, "outcome/roles/"+outcome)
 				if outcome == outRejected {
 					return "", ""
@@ -275,8 +310,10 @@ func enumerate(ctx *seq.Ctx) {
 			orch := "type: byKeySet\nkeys: [" + strings.Join(keys, ", ") + "]\ntag: t." + strings.Join(tagParts, ".") + "\n"
 			text := skeleton(parts{orchestration: orch, metricKeys: "[" + strings.Join(mkeys, ", ") + "]"})
 			id := fmt.Sprintf("roles/keys=%d/metricKeys=%d", km, mm)
-			ctx.Case(id, true, text, func() (string, string) {
-				outcome, key, msg := evaluate(text, "", opt)
+			caseLogged(ctx, id, true, text, func() (string, string) {
+				ropt := opt
+				ropt.real = ctx.Thorough()
+				outcome, key, msg := evaluate(text, "", ropt)
 				bump(ctx, "outcome/roles-keys/"+outcome)
 				if outcome == outRejected {
 					return "", ""
@@ -285,6 +322,77 @@ func enumerate(ctx *seq.Ctx) {
 			})
 		}
 	}
+
+	// ---- consistent rename of one schema field (declaration + every reference) to each name of the menu
+	for _, b := range renameBases() {
+		root, perr := parseYAML(b.text)
+		ctx.Group("rename/" + b.name)
+		caseLogged(ctx, "rename/"+b.name+"/unchanged", true, b.text, func() (string, string) {
+			if perr != nil {
+				return "harness:base-yaml", perr.Error()
+			}
+			outcome, key, msg := evaluate(b.text, "", full)
+			bump(ctx, "outcome/rename/"+outcome)
+			if outcome == outRejected {
+				_, _, _, err := parseOnly(b.text)
+				return "valid-rejected:base", fmt.Sprintf("base file %s is rejected: %v", b.name, err)
+			}
+			return key, msg
+		})
+		if perr != nil {
+			continue
+		}
+		for _, field := range schemaFields(root) {
+			if syslogRequiredFields[field] {
+				continue
+			}
+			for _, nn := range renameMenu {
+				if ctx.Stop() {
+					return
+				}
+				if !ctx.Thorough() && nn.id == "len70000" && field != "class" {
+					continue // quick: the str32 name once per base
+				}
+				id := "rename/" + b.name + "/" + field + "->" + nn.id
+				if !(ctx.Mine() && (onlyCase == "" || onlyCase == id)) {
+					ctx.Skip()
+					continue
+				}
+				text, rerr := renderYAML(renameField(root, field, nn.name))
+				caseLogged(ctx, id, true, text, func() (string, string) {
+					if rerr != nil {
+						return "harness:render", rerr.Error()
+					}
+					var check yaml.Node
+					if err := yaml.Unmarshal([]byte(text), &check); err != nil {
+						return "harness:render-invalid-yaml", err.Error()
+					}
+					ropt := opt
+					ropt.real = ctx.Thorough()
+					outcome, key, msg := evaluate(text, "", ropt)
+					bump(ctx, "outcome/rename/"+outcome)
+					return key, msg
+				})
+			}
+		}
+	}
+
+	// ---- byte-class sweep at the role positions of patterns, templates and the tag
+	enumerateSweep(ctx.Thorough(), func(id string) bool { return ctx.Mine() && (onlyCase == "" || onlyCase == id) }, func(id, text string, orchestrate bool) {
+		if stop := ctx.Stop(); text == "" || stop {
+			ctx.Skip()
+			return
+		}
+		ctx.Group(id[:strings.LastIndex(id, "/")])
+		caseLogged(ctx, id, true, text, func() (string, string) {
+			sopt := opt
+			sopt.orchestrate, sopt.listen, sopt.twoTags = orchestrate, false, false
+			outcome, key, msg := evaluate(text, "", sopt)
+			bump(ctx, "outcome/sweep/"+outcome)
+			return key, msg
+		})
+	})
+
 }
 
 // onlyCase is the case id of a replay (-case / -replay), read from the command line so that replaying one case does not
@@ -316,6 +424,10 @@ func findOnlyCase() {
 }
 
 func main() {
+	if os.Getenv(loaderChild) != "" {
+		loaderChildMain()
+		return
+	}
 	if os.Getenv("C16_TRACE") != "" {
 		t0 := time.Now()
 		fmt.Fprintf(os.Stderr, "trace main start\n")
@@ -353,20 +465,36 @@ func main() {
 			"4 orchestrators x 17 outputs (3 fluentd modes x 5 rewriter chains, 2 datadog); quick enumerates every third pair and every second depth-1 combination, thorough all. "+
 			"every case: render to a file, run.ParseConfigFile must return; error => done; accepted => parser+extractions, transforms, serializers, chunk makers, forwarder objects built inline and %d records (+%d on a second round) + 5 synthetic field fillings x 2 processed, "+
 			"chunks decoded; then (quick: except for mutants inside a transform list) the configured orchestrator started with real pipelines and hybrid bufferers on a scratch root, %d records fed through a sink, inputs constructed and started on an ephemeral port, shutdown. "+
+			"scalar kinds also include 3 explicit !!binary scalars (0xFF, '[a-\\xff]', 0x80 0x80 0x80: bytes YAML text cannot carry). "+
+			"further groups: rename/ - one non-required schema field of the sample file and of two minimal role files (orchestration key, metric key, extract destination, environment/hidden/inlined field, matcher key; second file: also named captures and template variables) "+
+			"renamed at its declaration and every reference to each of %d names (no Prometheus label names, msgpack key length classes 15/16/31/32/300/70000, names the agent uses itself); "+
+			"sweep/ - each of the 256 byte values at 7 (thorough 15) role positions of extract patterns (range start/end, boundaries, listed, escaped), templates (variable, braced name, literal, slice bound), tag, suffix, replacement, metric label; "+
+			"valid/two-out - ordered pairs of outputs in one pipeline under 2 (thorough 4) orchestrators; valid/amplify - %d amplifying transformation lists (1x-4x copies of $log into log / other / environment fields) x 17 outputs; "+
+			"reload/ and restart/ - 3 pair bases (byKeySet 1 key + Fluentd; byKeySet 2 keys + Fluentd + Datadog; singleton + Datadog) x %d edits (schema: field appended / removed / moved, maxFields; outputs: appended, prepended, removed, reversed, type, name; "+
+			"metricKeys; orchestration type, keys appended / prepended / removed / reversed / replaced, tag; inputs: extraction, address, levelMapping; transformations; not a configuration; no outputs) x both directions: "+
+			"reload = old configuration running through run.NewReloaderFromConfigFile with real pipelines and forwarders, records, file rewritten, Reloader.initiateDownstreamReload + ReloadableOrchestrator.reload, records of the OLD parser/allocator, shutdown; "+
+			"restart = old started with real forwarders (unreachable upstream: chunks stay in the queue directories, key values incl. empty, ',', '%%', '%%2C'), new started on the same buffer roots. "+
+			"every load goes through a helper process first (stall guard: loader-does-not-return after 2000 own-clock ticks and 2 s of CPU, or 20000 ticks); record menu + one record at the message limit (bases, valid side: + escape-heavy and over-limit records); "+
+			"phase A builds the forwarders of two pipelines on one metric creator per pipeline with the output label; bases, valid/orch-out, valid/two-out (thorough: all valid-side and role cases) additionally run phase C: orchestrator with the REAL forwarders (unreachable upstream), shutdown, restart on the queue directories left. "+
+			"inputs are constructed on the configured host; a well-formed port is replaced by 0, a repeated address gets the port of its first occurrence. "+
 			"non-trivial = every case (all mutants are well-formed YAML and reach the typed decoder and VerifyConfig); outcome/* groups count accepted vs rejected vs violation per kind family.",
-			nMini, len(validLeaves), len(validMatches), len(recordMenu), nSmall, nSmall),
+			nMini, len(validLeaves), len(validMatches), len(recordMenu), nSmall, nSmall, len(renameMenu), len(amplifiers), len(pairEdits)),
 		Assumptions: []string{
 			"one mutation per case (single-site substitution) in quick; two-site only for structural kinds on the minimal bases in thorough; multi-site interactions otherwise only on the valid side",
 			"whether an unknown name in hiddenFields, a missing inputs section, an odd but parseable upstream address, a negative duration, an empty output name or an unusable rootPath must be rejected is not documented: accepted or rejected are both fine as long as nothing panics",
-			"buffer rootPath is re-rooted below a scratch directory and the listen address replaced by 127.0.0.1:0 before instantiation: file-system and port availability are not properties of the file",
-			"the network forwarder is constructed but never started (consumer override acknowledges chunks), as in the repository's own integration tests",
-			"defs.InputLogMaxMessageBytes is lowered to 128 KiB and defs.BufferMaxNumChunksInQueue to 2000 in the harness process to make buffer allocation cheap; menu records are < 40 KiB and a case produces a handful of chunks",
+			"buffer rootPath is re-rooted below a scratch directory; the listen HOST is kept, a well-formed port number is replaced by 0 (whether a particular port is free is not a property of the file; whether the address can be listened on at all, and whether two inputs can both be constructed, is); failures caused by name resolution or a missing address family are the environment's and tolerated",
+			"phase B: consumer override that acknowledges chunks (no network), as in the repository's own integration tests; phase C, reload/ and restart/: the configured forwarders, upstream replaced by 127.0.0.1:1 (nothing listens: refused at once; network reachability is not a property of the file)",
+			"defs.InputLogMaxMessageBytes is lowered to 128 KiB and defs.BufferMaxNumChunksInQueue to 2000 in the harness process to make buffer allocation cheap; all size relations of the agent (record limit = message limit + 256, serializer buffer = 2 x record limit) scale with it, the limit-size records are built from the lowered value",
+			"a loader that does not return is judged by this process's own 5 ms tick count plus the CPU time the loading process has consumed, never by wall time; the seq watchdog (5 min without progress) stays behind it",
+			"reload oracle from the 'Reload restrictions' and schema comments of config_sample.yml: an unchanged file, an appended field and changed metricKeys must not be refused; for every other edit the reload may be accepted or refused, but nothing may panic and a refused reload leaves the old pipelines working; mis-assigned field values after an accepted reload are not judged (C16 is about crashes)",
+			"the shape of field names is not documented: a renamed field may be accepted or rejected; the nine fields the sample file documents as required by the syslog input are not renamed",
+			"run.(*Reloader).initiateDownstreamReload and run.(*ReloadableOrchestrator).reload are unexported: reached through go:linkname declarations in link.go (no build overlay)",
 			"schema/maxFields above 2^20 is not instantiated (16 bytes x maxFields per record): acceptance of such a value is reported as accepted-unbounded:schema.maxFields",
 			"a panic on a pipeline goroutine kills the worker process; seq attributes it to the case in flight (key fatal:*)",
 			"valid-side menus use only parameter values that appear in config_sample.yml comments or package tests (drop percentage 0 is documented as allowed by the sample comment but rejected by the code: not part of the menu)",
 		},
 		Enumerate:        enumerate,
-		QuickDeadline:    110e9,
+		QuickDeadline:    20 * 60e9, // a safety net only (machine load must not cut coverage); the tier is sized for <= 2 minutes
 		ThoroughDeadline: 40 * 60e9,
 	})
 }
